@@ -8,6 +8,9 @@ Reflected (values read from the imported classes of the tree under check, never 
 Probed by execution on two fixed inputs (the outcome must be one of two whitelisted behaviours):
   LOCAL_AS_FROM_CAP     Negotiated.local_as for a 4-byte local AS: 2-octet OPEN field (false) or ASN4 capability (true)
   UNKNOWN_PARAM_SUBCODE subcode of the NOTIFICATION for an unknown optional parameter type (0 or 4)
+  MS_VALUE_PARSED       MultiSession value: two TLVs [0],[code] and ignored on receipt (false) / one TLV [0, codes] read back (true)
+  AUTO_AS_FROM_PEER_CAP local-as auto: OPEN = peer's 2-octet field + ASN4(0) (false) / peer's true AS in field and capability (true)
+  AUTO_COLLISION_CHECK  local-as auto: validate() identifier collision never tested (false) / tested on the negotiated local AS (true)
   COLLISION_ON_TRUE_AS  Negotiated.validate iBGP router-id collision test uses the 2-octet field (false) or the true peer AS (true)
 Fail closed: a missing name, a non-integer, an unexpected registered capability code, an unexpected
 probe outcome or an `exabgp` imported from another tree all raise.
@@ -90,6 +93,110 @@ def _probe():
             raise Untranslatable(f'probe: unknown optional parameter answered {exc.code}/{exc.subcode}')
         unknown_param = int(exc.subcode)
     return local_from_cap, collision_true_as, unknown_param
+
+
+def open_exchange(neighbor, restarted, body):
+    """Drive the real Protocol the way Peer._establish does (OPEN first, or the peer's OPEN first when the
+    local AS is mirrored).  -> (our Open or None, peer Open or Notify, negotiated).  Used by harness/c07.py too."""
+    from exabgp.bgp.message import Message
+    from exabgp.bgp.message.notification import Notify
+    from exabgp.configuration.neighbor.api import ParseAPI
+    from exabgp.reactor.protocol import Protocol
+
+    class Stats(dict):
+        def __missing__(self, k):
+            return 0
+
+    class Peer:
+        pass
+
+    peer = Peer()
+    peer.neighbor = neighbor
+    peer.stats = Stats()
+    peer.reactor = None
+    peer._restarted = restarted
+    if not getattr(neighbor, 'api', None):
+        neighbor.api = ParseAPI.flatten({})
+    proto = Protocol(peer)
+    class Conn:
+        def session(self):
+            return 'verif'
+
+    proto.connection = Conn()
+
+    async def no_write(message, negotiated):
+        message.pack_message(negotiated)
+
+    proto.write = no_write
+
+    def drive(coro):
+        try:
+            coro.send(None)
+        except StopIteration as stop:
+            return stop.value
+        raise RuntimeError('coroutine suspended')
+
+    ours = None
+    if neighbor.session.local_as:
+        ours = drive(proto.new_open())
+        proto.negotiated.sent(ours)
+    try:
+        received = Message.unpack(Message.CODE.OPEN, bytes(body), proto.negotiated)
+    except Notify as exc:
+        return ours, exc, proto.negotiated
+    proto.negotiated.received(received)
+    if not neighbor.session.local_as:
+        ours = drive(proto.new_open())
+        proto.negotiated.sent(ours)
+    return ours, received, proto.negotiated
+
+
+def _probe2():
+    """multi-session value codec and local-as auto: classify into whitelisted behaviours."""
+    from exabgp.configuration.configuration import Configuration
+    from exabgp.bgp.message.open.capability.capability import Capability
+    from exabgp.bgp.message.open.capability.ms import MultiSession
+
+    sent = MultiSession().set([Capability.CODE.MULTIPROTOCOL]).extract_capability_bytes()
+    got = list(MultiSession.unpack_capability(MultiSession(), bytes([0, 2, 3]), Capability.CODE.MULTISESSION))
+    if sent == [bytes([0]), bytes([1])] and got == []:
+        ms_parsed = False
+    elif sent == [bytes([0, 1])] and [int(x) for x in got] == [2, 3]:
+        ms_parsed = True
+    else:
+        raise Untranslatable(f'probe: unexpected MultiSession codec {sent!r} / {got!r}')
+
+    text = 'neighbor 127.0.0.1 { router-id 1.2.3.4; local-address 127.0.0.2; local-as auto; peer-as auto; }'
+    conf = Configuration([text], text=True)
+    if not conf.reload():
+        raise Untranslatable('probe: local-as auto configuration refused')
+    n = next(iter(conf.neighbors.values()))
+    if int(n.session.local_as) != 0:
+        raise Untranslatable('probe: local-as auto is not 0')
+    # peer: AS_TRANS + ASN4(70000), the same router-id as ours
+    body = bytes([4, 0x5B, 0xA0, 0, 90, 1, 2, 3, 4, 8, 2, 6, 0x41, 4, 0, 1, 0x11, 0x70])
+    ours, received, neg = open_exchange(n, False, body)
+    cap = ours.capabilities.get(Capability.CODE.FOUR_BYTES_ASN)
+    seen = (int(ours.asn), None if cap is None else int(cap))
+    if seen == (23456, 0):
+        auto_true = False
+    elif seen == (23456, 70000):
+        auto_true = True
+    else:
+        raise Untranslatable(f'probe: unexpected OPEN for local-as auto {seen}')
+    # collision test in auto mode, made independent of new_open: peer AS 65001 (fits the field), same identifier
+    body = bytes([4, 0xFD, 0xE9, 0, 90, 1, 2, 3, 4, 8, 2, 6, 0x41, 4, 0, 0, 0xFD, 0xE9])
+    ours, received, neg = open_exchange(n, False, body)
+    err = neg.validate(n)
+    if int(neg.local_as) != 65001:
+        raise Untranslatable(f'probe: local-as auto with a 2-octet peer AS negotiated local_as {int(neg.local_as)}')
+    if err is None:
+        auto_collision = False
+    elif (err[0], err[1]) == (2, 3):
+        auto_collision = True
+    else:
+        raise Untranslatable(f'probe: unexpected validate() outcome in auto mode {err[:2]}')
+    return ms_parsed, auto_true, auto_collision
 
 
 def main(repo, gen_dir):
@@ -179,6 +286,11 @@ def main(repo, gen_dir):
     lines.append(f'Definition LOCAL_AS_FROM_CAP : bool := {"true" if local_from_cap else "false"}.')
     lines.append(f'Definition COLLISION_ON_TRUE_AS : bool := {"true" if collision_true_as else "false"}.')
     lines.append(f'Definition UNKNOWN_PARAM_SUBCODE : Z := {unknown_param}.')
+    ms_parsed, auto_true, auto_collision = _probe2()
+    lines.append(f'Definition MS_VALUE_PARSED : bool := {"true" if ms_parsed else "false"}.')
+    lines.append(f'Definition AUTO_AS_FROM_PEER_CAP : bool := {"true" if auto_true else "false"}.')
+    lines.append(f'Definition AUTO_COLLISION_CHECK : bool := {"true" if auto_collision else "false"}.')
 
     write_if_changed(os.path.join(gen_dir, 'Gen_Registry.v'), '\n'.join(lines) + '\n')
-    return {'LOCAL_AS_FROM_CAP': local_from_cap, 'COLLISION_ON_TRUE_AS': collision_true_as, 'UNKNOWN_PARAM_SUBCODE': unknown_param}
+    return {'LOCAL_AS_FROM_CAP': local_from_cap, 'COLLISION_ON_TRUE_AS': collision_true_as, 'UNKNOWN_PARAM_SUBCODE': unknown_param,
+            'MS_VALUE_PARSED': ms_parsed, 'AUTO_AS_FROM_PEER_CAP': auto_true, 'AUTO_COLLISION_CHECK': auto_collision}
